@@ -21,7 +21,8 @@
 **              reptuple = Tuples referencing one object at several positions as left operand of container cmp
 **              mixed = values of different types (a refusal is fine, an answer must be an order)
 **              converted = Array/List/Table/Tree constructed with other element (key/value) types and then given their
-**                          contents by assign(), against directly built containers of the same contents (see run_converted)
+**                          contents by assign(), against directly built containers of the same contents (see run_converted;
+**                          must be named, dom=all does not include it)
 **              replay="<dom> pair i j" | "<dom> triple i j k" | "<dom> triples i j"
 **                     | "<dom> tree|table <order>"
 **
@@ -759,7 +760,8 @@ static void run_reptuple(void) {
 **              from the same source (same slot layout).
 **              oracle    = pairs of order-defined operands (Trees; Tables with <= 1 entry - Table_Cmp walks in slot
 **                          order, the property does not list Table and D10 is the known consequence): as for sequences,
-**                          reference = lexicographic over (key, value) in key order.  Every pair: no exception, predicates
+**                          reference = lexicographic over (key, value) in the direction a Tree iterates (probed; the
+**                          pinned tree walks descending keys - the property fixes "key then value", not the direction).  Every pair: no exception, predicates
 **                          derive from cmp.  Every converted Table: cmp with its twin is 0 both ways and it gives the
 **                          same sign as its twin against and under every operand of the pool.
 ** replay="converted <family> seq|map pair <i> <j>" rebuilds the pool (deterministic) and judges that pair.
@@ -808,10 +810,12 @@ static signed char* CVS;                           /* observed sign matrix, MX_R
 static int cv_fam; static const char* cv_part;
 static uint64_t cv_build_failures;
 
+static int cv_tree_descending;                     /* the direction in which a Tree iterates (the pinned tree: descending keys); probed, not assumed */
 static int cv_refsign(const struct cv_op* a, const struct cv_op* b, int is_map) {
-  for (int k = 0; k < a->n && k < b->n; k++) {
-    if (is_map && a->key[k] != b->key[k]) return a->key[k] < b->key[k] ? -1 : 1;
-    if (a->val[k] != b->val[k]) return a->val[k] < b->val[k] ? -1 : 1;
+  for (int q = 0; q < a->n && q < b->n; q++) {
+    int ka = is_map && cv_tree_descending ? a->n - 1 - q : q, kb = is_map && cv_tree_descending ? b->n - 1 - q : q;
+    if (is_map && a->key[ka] != b->key[kb]) return a->key[ka] < b->key[kb] ? -1 : 1;
+    if (a->val[ka] != b->val[kb]) return a->val[ka] < b->val[kb] ? -1 : 1;
   }
   return a->n < b->n ? -1 : a->n > b->n ? 1 : 0;
 }
@@ -1020,6 +1024,11 @@ static void run_converted(void) {
   char fam[16] = "", part[8] = ""; int oi = -1, oj = -1;
   if (vf.replay && sscanf(vf.replay, "converted %15s %7s pair %d %d", fam, part, &oi, &oj) != 4) return;
   for (int f = 0; f <= CF_RAW12; f++) for (int v = 0; v < 3; v++) cf_obj[f][v] = cf_new(f, v);
+  { /* which way does a Tree iterate?  The property fixes "key then value", not the direction */
+    var t = new_raw(Tree, Int, Int); set(t, $I(1), $I(0)); set(t, $I(2), $I(0));
+    cv_tree_descending = c_int(iter_init(t)) == 2;
+    del_raw(t);
+  }
   cvo = calloc(CV_MAXOPS, sizeof *cvo);
   CVS = malloc((size_t)CV_MAXOPS * CV_MAXOPS);
   int nseq[CF_N], nmap[CF_N];
@@ -1074,7 +1083,7 @@ int main(int argc, char** argv) {
   if (vfg_dom_selected(doms, "recycled")) run_recycled();
   if (vfg_dom_selected(doms, "reptuple")) run_reptuple();
   if (vfg_dom_selected(doms, "mixed")) run_mixed();
-  if (vfg_dom_selected(doms, "converted")) run_converted();
+  if (strcmp(doms, "all") != 0 && vfg_dom_selected(doms, "converted")) run_converted();   /* an instance of its own, not part of dom=all */
   vf.states = 0;
   vf_finish();
   return 0;
